@@ -11,7 +11,7 @@ git -C /repo worktree add -q --detach "$W" HEAD || exit 9
 git -C "$W" apply "$D/patch.diff" || { echo "MUT $D apply=FAIL"; git -C /repo worktree remove --force "$W"; exit 9; }
 for P in "$@"; do
   s=$(date +%s)
-  VERIF_REPO=$W VERIF_OUT=$O /verif/check "$P" --tier "$T" ${JOBS:+--jobs $JOBS} > "$O/$P.log" 2>&1; rc=$?
+  VERIF_REPO=$W VERIF_OUT=$O /verif/check "$P" --tier "$T" ${JOBS:+--jobs $JOBS} ${ONLY:+--only "$ONLY"} > "$O/$P.log" 2>&1; rc=$?
   e=$(date +%s)
   echo "MUT $D check=$P tier=$T exit=$rc $((e-s))s viol=$(grep -c '^VIOLATION' "$O/$P.log") | $(grep '^SUMMARY' "$O/$P.log" | cut -c1-150)"
   grep '^HARNESS-ERROR' "$O/$P.log" | cut -c1-300 | head -3
